@@ -138,6 +138,13 @@ def execute(spec):
         arrays[-2] = rp.set_fields(scenes[-2], b * E0, b * H0)
         arrays[-1] = rp.set_fields(scenes[-1], c * b * E0, c * b * H0)
     coeff = a + ([b] if has_init else [])
+    # the same common-factor run obtained by a *functional update of the placed sources* (static_amplitude_factor changed
+    # after placement, as an optimisation loop or a parameter sweep does) instead of a new placement
+    objs_upd = scenes[-2].objects
+    for i, src in enumerate(spec["sources"]):
+        objs_upd = objs_upd.aset(f"object_list->[{objs_upd.index(src['name'])}]->static_amplitude_factor", float(c * a[i]))
+    st_upd = dr.Stepper(scenes[-2], objects=objs_upd)
+    state_upd = st_upd.state0(arrays[-1])
     states = [st.state0(x) for st, x in zip(steppers, arrays)]
     kind = {d["name"]: d["kind"] for d in spec["detectors"]}
     fc, g_run = None, 0.0
@@ -147,6 +154,9 @@ def execute(spec):
         fs = [dr.fields_np(s) for s in states]
         rs = [dr.detectors_np(s) for s in states]
         fc, fsc = fs[-2], fs[-1]
+        state_upd = st_upd.fwd(state_upd)
+        rp.count_steps(stats, 1, scenes[0].dt)
+        _cmp(mon, "factor_updated_after_placement", t, fsc, {}, dr.fields_np(state_upd), rp.FLOOR * max(rp.field_scale(fsc), 1e-300))
         # field scale of the combination (terms included, so that cancelling terms do not shrink it)
         g = max(rp.field_scale(fc), sum(abs(x) * rp.field_scale(f) for x, f in zip(coeff, fs)))
         g_run = max(g_run, g)
